@@ -1,0 +1,63 @@
+//go:build verif
+
+package msg
+
+import (
+	"sort"
+	"sync/atomic"
+)
+
+// VerifYield, when set by the conformance harness, is called at every yield point of the Box (immediately before a lock
+// acquisition and at the entry of the public calls). A blocking implementation doubles as a scheduler gate.
+var VerifYield func(point string)
+
+func verifYield(point string) {
+	if f := VerifYield; f != nil {
+		f(point)
+	}
+}
+
+// VerifSnapshot is a read-only projection of the Box state for the conformance harness.
+type VerifSnapshot struct {
+	Pending  map[string][]string // topic -> data of the held messages, in order
+	Counts   map[string]map[uint16]int
+	Started  map[string]uint64
+	InFlight map[uint16][]string
+	Epoch    uint64
+	LastGC   uint64
+}
+
+func (b *Box) VerifSnapshot() VerifSnapshot {
+	b.initialize()
+	b.lock.RLock()
+	defer b.lock.RUnlock()
+	s := VerifSnapshot{Pending: map[string][]string{}, Counts: map[string]map[uint16]int{}, Started: map[string]uint64{}, InFlight: map[uint16][]string{}}
+	for t, sm := range b.pendingMessages {
+		sm.lock.RLock()
+		l := make([]string, 0, len(sm.messages))
+		for _, m := range sm.messages {
+			l = append(l, string(m.Data))
+		}
+		c := map[uint16]int{}
+		for k, v := range sm.messageCountPerSender {
+			c[k] = v
+		}
+		sm.lock.RUnlock()
+		s.Pending[t] = l
+		s.Counts[t] = c
+	}
+	for t, e := range b.startedSending {
+		s.Started[t] = e
+	}
+	for sender, topics := range b.totalInFlightTopicsBySender {
+		var l []string
+		for t := range topics {
+			l = append(l, t)
+		}
+		sort.Strings(l)
+		s.InFlight[sender] = l
+	}
+	s.Epoch = atomic.LoadUint64(&b.currentGCEpochNum)
+	s.LastGC = atomic.LoadUint64(&b.lastGC)
+	return s
+}
